@@ -205,6 +205,22 @@ fn failure_sites(sorenson: bool) -> Vec<(String, Vec<u8>)> {
             "P picture larger than the reference (fails in prediction)".into(),
             enc(&Pic { hdr: Hdr::S(SHdr { version: 0, tr: 79, size: SSize::auto(48, 32), ptype: 1, deblock: true, q: 9, pei: vec![] }), mbs: vec![Mb::inter((-3, 2)), Mb::NotCoded, Mb::inter((0, 5))] }, &[]),
         ));
+        // pictures of another size that end early at a macroblock boundary: nothing in the data is
+        // invalid, the missing macroblocks are to be copied from a reference that has another size -
+        // the failure comes from the very last step (I, P and D; header only and after one macroblock;
+        // smaller and larger than the stored pictures)
+        for (w, h) in [(16u16, 16u16), (48, 32), (16, 32)] {
+            for ptype in [0u8, 1, 2] {
+                for k in 0..2usize {
+                    let mb = if ptype == 0 { Mb::intra_flat(DC[2]) } else { Mb::inter((1, -1)) };
+                    let mbs: Vec<Mb> = (0..k).map(|_| mb.clone()).collect();
+                    v.push((
+                        format!("type-{ptype} picture of another size ({w}x{h}) ending after {k} macroblocks (source ends here)"),
+                        enc(&Pic { hdr: Hdr::S(SHdr { version: 0, tr: 80 + k as u8, size: SSize::auto(w, h), ptype, deblock: false, q: 9, pei: vec![] }), mbs }, &[]),
+                    ));
+                }
+            }
+        }
     }
     v
 }
@@ -306,7 +322,10 @@ fn fail_checks(rep: &Report, world: &World, nodes: &[Node], sites: &[(String, Ve
         let snap0 = last_snap(&r.dec.st);
         // the source: failing bytes followed by a sentinel that must still be readable afterwards
         let mut src = f.clone();
-        src.extend_from_slice(&[0xDE, 0xAD, 0xBE, 0xEF]);
+        // (sites whose point is that the data *ends* there carry no sentinel)
+        if !name.contains("source ends here") {
+            src.extend_from_slice(&[0xDE, 0xAD, 0xBE, 0xEF]);
+        }
         let mut rd = H263Reader::from_source(&src[..]);
         let o = decode_with(&mut r.dec.st, &mut rd);
         rep.add_transitions(1);
